@@ -116,13 +116,16 @@ def _pool_init(modname, init_args):
 def _pool_run(item):
     idx, case = item
     mod = _WORK["mod"]
+    _WORK["seq"] = _WORK.get("seq", 0) + 1
     try:
         res = mod.run_case(case)
     except HarnessError as e:
         return idx, {"harness_error": f"{e}", "case": case}
     except BaseException as e:  # noqa: BLE001
         return idx, {"harness_error": f"run_case raised {type(e).__name__}: {e}\n{traceback.format_exc()}", "case": case}
-    return idx, dict(res)
+    res = dict(res)
+    res["_worker"] = (os.getpid(), _WORK["seq"])  # which process ran this case, and as its how-manieth (history-dependent failures)
+    return idx, res
 
 
 class Run:
@@ -204,6 +207,10 @@ class Run:
                 v["family"] = family
                 if canon(v["case"]) != canon(cases[i]):
                     v["chunk_case"] = cases[i]  # the whole operation sequence the worker ran (history-dependent failures)
+                w = r.get("_worker")
+                if w is not None:
+                    # every case the same worker process ran before this one, in the order it ran them
+                    v["_history"] = (results, cases, w)
                 self.violations.append(v)
                 fam["violations"] += 1
         return results
@@ -271,6 +278,18 @@ class Run:
                 path.write_text(json.dumps(rec, indent=1, sort_keys=True, default=_json_default))
                 ok, why2 = confirm_replay(self.prop, path, v["kind"])
                 why = f"{why}; with history: {why2}"
+            if not ok and v.get("_history") is not None:
+                # still not reproduced: the failure needs what the same worker process did before.  Replay every case that
+                # process ran, in its order, in a fresh interpreter.
+                results_, cases_, (pid, seq) = v["_history"]
+                before = sorted((r_["_worker"][1], j) for j, r_ in enumerate(results_) if r_.get("_worker") and r_["_worker"][0] == pid and r_["_worker"][1] <= seq)
+                if len(before) > 1:
+                    rec["case"] = {"__sequence__": [cases_[j] for _, j in before]}
+                    rec["history_dependent"] = True
+                    rec["minimal_case_that_needs_history"] = v["case"]
+                    path.write_text(json.dumps(rec, indent=1, sort_keys=True, default=_json_default))
+                    ok, why3 = confirm_replay(self.prop, path, v["kind"])
+                    why = f"{why}; with the worker's history ({len(before)} cases): {why3}"
             if not ok:
                 lines.append(f"HARNESS-ERROR nondeterministic: {why} ({path})")
                 if status == 0:
@@ -339,7 +358,9 @@ class Replay_{prop}(unittest.TestCase):
         mod = importlib.import_module("{mod}")
         if hasattr(mod, "init_worker"):
             mod.init_worker(*getattr(mod, "REPLAY_INIT_ARGS", ()))
-        res = mod.run_case(rec["case"])
+        case = rec["case"]
+        for c in (case["__sequence__"] if isinstance(case, dict) and "__sequence__" in case else [case]):
+            res = mod.run_case(c)  # a history-dependent failure is replayed as the sequence of cases one worker ran; the last one counts
         self.assertEqual([], [v["kind"] + ": " + v["msg"] for v in res["violations"]], "expected no violation (recorded class: {kind})")
 
 if __name__ == "__main__":
@@ -413,8 +434,14 @@ def do_replay(prop, modname, path):
     mod = importlib.import_module(modname)
     if hasattr(mod, "init_worker"):
         mod.init_worker(*getattr(mod, "REPLAY_INIT_ARGS", ()))
-    res = mod.run_case(rec["case"])
-    vs = res["violations"]
+    if isinstance(rec["case"], dict) and "__sequence__" in rec["case"]:
+        vs = []
+        for c in rec["case"]["__sequence__"]:  # the cases one worker process ran, in its order
+            vs = list(mod.run_case(c)["violations"])
+        # only the last case's violations count: it is the one that was reported
+    else:
+        res = mod.run_case(rec["case"])
+        vs = res["violations"]
     if not vs:
         print(f"REPLAY-OK property={prop} case no longer violates")
         return 0
